@@ -509,7 +509,7 @@ def run_case(case, ctx):
                                   "metric %s at master %s: %d in the master, %d in the built font (tolerance %.2f)" % (tag, m["name"], mvl, vvl, tol),
                                   {"case": case["id"], "master": m["name"], "user": m["user_f"], "hb_norm": nV})
         if "VORG" in V.tags and "VORG" in M.tags and "vmtx" in V.tags and "vmtx" in M.tags:
-            _vertical_metrics(case, ctx, m, V, M, common, vidx, midx, sparse)
+            _vertical_metrics(case, ctx, m, V, M, common, vidx, midx, sparse, sens)
         # FreeType advances: unlike HarfBuzz, FreeType takes a composite's advance from the component that carries
         # USE_MY_METRICS, so a flag the builder should have cleared shows up here although HVAR is right
         if flavour == "glyf" and hbft.freetype is not None:
@@ -551,9 +551,15 @@ def run_case(case, ctx):
                   "table_builders": dict(_cur["tables"]), "worst_observed": worst, "tables": sorted(V.tags)}
 
 
-def _vertical_metrics(case, ctx, m, V, M, common, vidx, midx, sparse):
+def _vertical_metrics(case, ctx, m, V, M, common, vidx, midx, sparse, sens):
     """vertical advances (vmtx + VVAR) and vertical origins (VORG + VVAR.VOrgMap) through HarfBuzz: the master's own
-    integer value against the built font's rounded value: 0.5 delta rounding + 0.5 engine rounding, + 1 for the location"""
+    integer value against the built font's rounded value: 0.5 delta rounding + 0.5 engine rounding, + 1 for the location.
+    Only at masters whose location HarfBuzz reaches exactly (measured sensitivity of every horizontal advance to the
+    location quantisation is zero): the sensitivity of the vertical values themselves is not measured, and at an
+    intermediate location that is not F2Dot14-exact large vertical deltas move the value by several units."""
+    if any(v > 0 for v in sens["adv"].values()):
+        ctx.skip("guard: master location not reached exactly, vertical metrics not judged there")
+        return
     for n in common:
         if n in sparse:
             continue
